@@ -1,0 +1,15 @@
+//go:build verif
+
+package smtp
+
+import (
+	"net"
+
+	"github.com/rs/zerolog"
+)
+
+// VerifC02Session runs one SMTP session on conn and returns when the session has ended
+// (startSession registers itself with the server's WaitGroup).
+func (s *Server) VerifC02Session(id int, conn net.Conn) {
+	s.startSession(id, conn, zerolog.Nop())
+}
